@@ -88,6 +88,10 @@ def run(ctx):
         lens = [list(map(int, x)) for x in t.cigar_length.tolist()] if n else []
         seqs = text_rows(t.sequence) if n else []
         quals = [list(map(int, x)) for x in t.quality.tolist()] if n else []
+        cols_ = {"chromosome": chrom, "name": names, "flag": flags, "position": pos, "mapq": mapq, "cigar_op": ops, "cigar_length": lens, "sequence": seqs, "quality": quals}
+        if any(len(v_) != n for v_ in cols_.values()):
+            from bnpmon.tables import UnequalColumns
+            raise UnequalColumns("a table of %d records has columns of lengths %r" % (n, {k_: len(v_) for k_, v_ in cols_.items() if len(v_) != n}))
         return [{"chromosome": chrom[i], "name": names[i], "flag": flags[i], "pos": pos[i], "mapq": mapq[i], "cigar": list(zip(ops[i], lens[i])), "seq": seqs[i], "qual": quals[i]} for i in range(n)]
 
     def compare(lib, recs, refs):
@@ -173,6 +177,18 @@ def run(ctx):
                     continue
                 bad = compare(lib, recs, refs)
                 ctx.check("chunked", bad is None, "read_chunks/%s" % (bad[1] if bad else ""), "chunked read k=%d: record %s field %s = %r, expected %r" % ((k,) + (bad or (0, 0, 0, 0))), dict(wit, k=k, bad=[str(x) for x in bad] if bad else None), nt and (nt, k))
+            # 2b. the chunk tables kept and joined afterwards, a column having been read on some of them only: the joined table decodes to the records of the file
+            k = r.choice(ks)
+            def joined_chunks():
+                cs = list(bnp.open(path).read_chunks(min_chunk_size=k))
+                if len(cs) >= 2 and r.random() < 0.7:
+                    for c_ in cs[:r.randint(1, len(cs) - 1)]:
+                        getattr(c_, r.choice(["name", "position", "sequence", "flag"]))
+                return lib_records(np.concatenate(cs) if len(cs) > 1 else cs[0])
+            lib = guarded("chunked", "np.concatenate(read_chunks)", joined_chunks)
+            if lib is not None:
+                bad = compare(lib, recs, refs)
+                ctx.check("chunked", bad is None, "np.concatenate(read_chunks)/%s" % (bad[1] if bad else ""), "chunk tables (k=%d) joined: record %s field %s = %r, expected %r" % ((k,) + (bad or (0, 0, 0, 0))), dict(wit, k=k, bad=[str(x) for x in bad] if bad else None), nt and (nt, k, "joined"))
         # 3. reference intervals
         mapped = [x for x in recs]
         if n:
